@@ -422,6 +422,9 @@ def families(tier='quick', seed=0):
     # the white space between the words of a field name is part of the name
     add('modifier', 'wide-space key', {'idents': {'A': M((K('a  b'), S('x*')), (K('g'), S('y')))}, 'cond': ('id', 'A')})
     add('modifier', 'str(wide-space key)', {'idents': {'A': M((K('a  b', 'str'), S('4*')))}, 'cond': ('id', 'A')})
+    # a number as a word of a field name: rejected at load today; were it accepted, the field must be asked for as written
+    add('modifier', 'number-word key 2.0', {'idents': {'A': M((K('w 2.0'), S('x*')))}, 'cond': ('id', 'A')})
+    add('modifier', 'number-word key 007', {'idents': {'A': M((K('w 007'), S('x*')), (K('g'), S('y')))}, 'cond': ('id', 'A')})
     # a case-sensitive list and its i-prefixed twin on one field
     add('shake', 'list and its i-twin', {'idents': {'A': ('seq', [M((K('f'), L(S('ab*'), S('cd*')))), M((K('f'), L(S('iab*'), S('icd*')))), M((K('g'), S('x')))])}, 'cond': ('id', 'A')})
     add('shake', 'i-twin and list', {'idents': {'A': ('seq', [M((K('f'), L(S('iab*'), S('icd*')))), M((K('f'), L(S('ab*'), S('cd*')))), M((K('g'), S('x')))])}, 'cond': ('id', 'A')})
@@ -497,7 +500,7 @@ MUST = {'single/"a\'', 'single/i\'a"', 'single/"',
         'list-mixed/*,>1', 'list-mixed/>=1,<=5', 'quant-short/all:>=1,<=5', 'modifier/str(f) float constant',
         'regex/i?^\\D+$', 'regex/i?\\Sa', 'modifier/{not(f), not(g), h}',
         'modifier/multi-word keys', 'modifier/all(multi-word key)', 'modifier/int(multi-word key)',
-        'modifier/wide-space key', 'modifier/str(wide-space key)', 'scalar/u64max', 'scalar/i64max+1', 'single/ a', 'single/a ', 'single/ a*', 'regex-rewrite/of2 twins', 'regex-rewrite/of2 twins+1', 'regex-rewrite/all twins', 'regex-rewrite/i?^ks', 'regex-rewrite/i?ks$',
+        'modifier/wide-space key', 'modifier/str(wide-space key)', 'modifier/number-word key 2.0', 'modifier/number-word key 007', 'scalar/u64max', 'scalar/i64max+1', 'single/ a', 'single/a ', 'single/ a*', 'regex-rewrite/of2 twins', 'regex-rewrite/of2 twins+1', 'regex-rewrite/all twins', 'regex-rewrite/i?^ks', 'regex-rewrite/i?ks$',
         'shake/A or B or C one text two kinds', 'shake/seq one text two kinds', 'shake/seq one text two kinds i', 'quant-ident/all(tabled)', 'quant-ident/of(tabled,2)', 'quant-ident/all(part-tabled)', 'quant-ident/of(part-tabled,2)'}
 
 
